@@ -2,7 +2,7 @@
 """copies a seeded change produced by a sub-agent (/tmp/seed_Cxx_out/m<i>) into /verif/seeded/Cxx-m<i>/"""
 import json, os, shutil, sys
 for pid in sys.argv[1:]:
-    for i in range(1, 20):
+    for i in range(1, 40):
         src = "/tmp/seed_%s_out/m%d" % (pid, i)
         if not os.path.exists(os.path.join(src, "patch.diff")):
             continue
